@@ -261,7 +261,8 @@ class Trace:
                     k, n = f[2].split("=")[1].split("/")
                     self.picks.append((int(f[1]), int(k), int(n), int(f[3].split("=")[1])))
                 elif c == "T":
-                    self.ntf.append((int(f[1]), f[3], f[4].split("=", 1)[1] if len(f) > 4 else ""))
+                    self.ntf.append((int(f[1]), f[3], f[4].split("=", 1)[1] if len(f) > 4 else "",
+                                     int(f[5].split("=", 1)[1]) if len(f) > 5 else -1))
                 elif c == "Z":
                     if f[2] == "PANIC":
                         self.panic = (int(f[1]), " ".join(f[3:]))
